@@ -91,6 +91,10 @@ def cases(tier, rng):
         allows = [[rng.choice(names)] if rng.chance(3, 4) else [] for _e in range(rng.range(2, 3))]
         reqs = list(dict.fromkeys([rng.choice(names) for _ in range(2)] + [variants(rng, rng.choice(names))]))[:3]
         cs.append(mkmulti("c03http", names, allows, reqs))
+    # many logical connections for different names opened at the same time on one session: each reaches the target of ITS name
+    for names, rounds, width in (([b"a", b"b", b"c", b"d"], 10, 40), ([b"web", b"web2", b"db"], 6, 60)):
+        line = "c03par %d %s %d %d" % (len(names), " ".join(hx(n) for n in names), rounds, width)
+        cs.append({"line": line, "key": line, "model": False, "tags": {"src": "parallel-routing", "nchan": len(names), "nallow": 0, "nreq": rounds * width}})
     # two endpoints of one kind in one server process (the documentation's DNS example has two), one allowing only x, the other only y:
     # a request is judged by the allow-list of the endpoint it arrived on (implementation only: real upstreams over loopback)
     for kind in ("dns", "tcp", "udp"):
@@ -117,6 +121,14 @@ def oracle(case, impl):
         return [("crash", "routing case failed to run: " + impl[:200])]
     if toks[0] in ("c03multi", "c03http"):
         return oracle_multi(toks, p, case)
+    if toks[0] == "c03par":
+        f = dict(zip(p[0::2], p[1::2]))
+        out = []
+        if int(f.get("wrong", 0)) > 0:
+            out.append(("wrong-target;parallel", "%s of %d logical connections opened at the same time reached the target of another name (first: requested entry %s, connected to entry %s)" % (f["wrong"], case["tags"]["nreq"], f.get("req"), f.get("got"))))
+        if int(f.get("failed", 0)) > 0:
+            out.append(("refused-configured;parallel", "%s of %d logical connections for configured names failed when opened at the same time" % (f["failed"], case["tags"]["nreq"])))
+        return out
     if toks[0] == "c03two":
         eps = impl.split("ep")[1:]
         if len(eps) != 2:
